@@ -11,6 +11,12 @@
 (* a statement (C13), what makes the header the last word of a flush (C04)  *)
 (* and what "a refused statement changes nothing" means for pages (C14).    *)
 (*                                                                          *)
+(* In the README's words the page cache is NO STEAL (no page of a running    *)
+(* statement reaches the data file: WritePage needs the exclusive lock, and *)
+(* a full cache refuses rather than writes - Aborted) and NO FORCE (a       *)
+(* statement returns once its records are in the log: Result asks for       *)
+(* stamped = logged, never for a flush, CREATE TABLE excepted).             *)
+(*                                                                          *)
 (* Every action takes the values the code used (page, LSN, ...) as          *)
 (* arguments: WalOrderMC.tla picks them nondeterministically from small     *)
 (* sets, WalOrderTrace.tla takes them from a recorded run of the real store.*)
